@@ -231,6 +231,10 @@ def core_configs(ctx):
             cfg = {"strategy": "dimwise", "a": [0.0] * 3, "b": [1.0] * 3, "norm": "inf", "grid": {"type": "GlobalTrapezoidal", "boundary": vi % 2 == 0},
                    "opts": {"version": version, "rebalancing": False}}
             out.append((cfg, (1, 2), ["addgauss", [200.0] * 3, rng.choice([[0.9, 0.1, 0.5], [0.1, 0.9, 0.9], [0.8, 0.2, 0.15]])]))
+    for vi, version in enumerate((6, 7, 3)):  # modified basis, refinement next to (not at) the boundary: non-uniform extrapolating end intervals
+        cfg = {"strategy": "dimwise", "a": [0.0, 0.0], "b": [1.0, 1.0], "norm": "inf", "grid": {"type": "GlobalTrapezoidal", "boundary": False, "modified": True},
+               "opts": {"version": version, "rebalancing": False}}
+        out.append((cfg, (1, 2 + vi % 2), ["addgauss", [600.0, 600.0], [[0.8, 0.3], [0.3, 0.8], [0.78, 0.22]][vi]]))
     for boundary in (True, False):
         cfg = {"strategy": "dimwise", "a": [0.0, 0.0], "b": [1.0, 1.0], "norm": "inf", "grid": {"type": "GlobalTrapezoidal", "boundary": boundary},
                "opts": {"version": 6, "rebalancing": True}}
